@@ -11,7 +11,7 @@ Rec == ndJsonDeserialize(IOEnv.TRACE)
 
 \* Layer R: the sector lifecycle model (Sectors.tla), instantiated with the same policy numbers
 LC == INSTANCE Sectors WITH D <- D, W <- W_, PartSize <- PartSize, FaultMaxAge <- FaultMaxAge,
-                           FaultCutoff <- FaultCutoff, MinLife <- MinLife, MaxLife <- MaxLife, PostedPartsMax <- 3,
+                           FaultCutoff <- FaultCutoff, MinLife <- MinLife, MaxLife <- MaxLife, AddrSectorsMax <- AddrSectorsMax, AddrPartsMax <- AddrPartsMax,
                            SM <- Wd, epoch <- l, last <- G
 
 
@@ -144,7 +144,10 @@ TStep ==
           /\ Chk("C05", "EarlyTermsScheduled", EarlyTermsScheduled(e.st), "-", e)
           /\ Chk("C05", "CronNeverFails", e.ev # "Tick" \/ e.cronOK \/ OnlyInjected(e), IF e.ev = "Tick" THEN CronFailTag(Wd, G, e) ELSE "-", e)
           /\ Chk("C05", "NoBalanceInvariantBroken", e.ev = "Tick" \/ e.code # 1000, "-", e)
-          /\ Chk("C05", "NoPanic", e.ev = "Tick" \/ e.class # "panic", "-", e)
+          \* "nothing panics" is stated for the tick and its callbacks; a panic in a user message (it aborts the message
+          \* and changes nothing) is outside C05 and only noted
+          /\ Chk("C05", "NoPanic", e.ev # "Tick" \/ \A i \in Idx(e.fails) : ~e.fails[i].panic, "-", e)
+          /\ (IF e.ev # "Tick" /\ e.class = "panic" THEN PrintT(<<"NOTE", "C05", "user-call-panic", l, e.ev>>) ELSE TRUE)
           /\ Chk("C14", "VestShape", VestShape(e.st), "-", e)
           /\ Chk("C14", "VestNotOverdue", \A i \in Idx(e.st.miners) : e.st.miners[i].m \in G'.lost \/ ~G'.fresh[e.st.miners[i].m]
                                                 \/ VestNotOverdue(e.st, e.st.miners[i]), "-", e)
